@@ -188,7 +188,8 @@ def in_python_domain(ctx, d, v, contract=None):
     if k == "clen":
         return z3.And(zint(v) >= -1, zint(v) < domains.UV5 - 1) if isinstance(v, (int, SInt)) else False
     if k == "sv":
-        return z3.And(zint(v) >= -(2 ** (d[1] + 2)), zint(v) < 2 ** (d[1] + 2)) if isinstance(v, (int, SInt)) else False
+        b = 2 ** 34 if d[1] == 32 else 2 ** 69
+        return z3.And(zint(v) >= -b, zint(v) < b) if isinstance(v, (int, SInt)) else False
     if k in ("ncstr", "nlstr", "ncbytes", "nlbytes", "nts", "nent"):
         if v is None:
             return True
